@@ -23,7 +23,8 @@ gen_plain_overlay() {
  "$REPO/teamserver/pkg/handlers/export_verif.go": "$HERE/mc/overlay/handlers_export.go",
  "$REPO/teamserver/cmd/server/export_verif.go": "$HERE/mc/overlay/server_export.go",
  "$REPO/teamserver/pkg/service/export_verif.go": "$HERE/mc/overlay/service_export.go",
- "$REPO/teamserver/pkg/socks/export_verif.go": "$HERE/mc/overlay/socks_export.go"
+ "$REPO/teamserver/pkg/socks/export_verif.go": "$HERE/mc/overlay/socks_export.go",
+ "$REPO/teamserver/pkg/db/export_verif.go": "$HERE/mc/overlay/db_export.go"
 }}
 JSON
 }
